@@ -20,7 +20,7 @@ func raw(v interface{}) json.RawMessage {
 
 var typedTags = []string{"SIMPULSE", "TRIANGLE", "LANCERO", "ABACO", "ROACH", "STATUS", "WRITING", "TESMAPFILE", "TRIGGER"}
 var genericTags = []string{"STATELABEL", "TRIGCOUPLING", "GROUPTRIGGER", "MIX", "DATADROP", "RAWDATABLOCK", "Foo", "x1"}
-var nosaveTags = []string{"CHANNELNAMES", "ALIVE", "TRIGGERRATE", "NUMBERWRITTEN", "TESMAP", "EXTERNALTRIGGER", "Alive"}
+var nosaveTags = []string{"CHANNELNAMES", "ALIVE", "TRIGGERRATE", "NUMBERWRITTEN", "TESMAP", "EXTERNALTRIGGER", "TriggerRate"}
 var oddTags = []string{"NEWDASTARD", "CURRENTTIME", "___1", "___3"}
 
 func ints(r *lib.Rng, maxLen, lo, hi int) []int {
@@ -323,7 +323,8 @@ func corpus() []Case {
 			Ops: append(append(all(), Op{Op: "W"}, Op{Op: "SA"}, Op{Op: "U", Tag: "ALIVE", Val: raw(5)}),
 				append(all(), Op{Op: "W"}, Op{Op: "R"}, Op{Op: "SA"})...)},
 		// a volatile topic does not make a save due
-		{Mode: "hist", Ops: []Op{{Op: "U", Tag: "STATELABEL", Val: raw("a")}, {Op: "W"}, {Op: "U", Tag: "STATELABEL", Val: raw("b")}, {Op: "W"}, {Op: "SA"}}},
+		{Mode: "hist", Ops: []Op{{Op: "U", Tag: "STATELABEL", Val: raw("a")}, {Op: "W"}, {Op: "U", Tag: "ALIVE", Val: raw(1)},
+			{Op: "U", Tag: "STATELABEL", Val: raw("a")}, {Op: "W"}, {Op: "U", Tag: "STATELABEL", Val: raw("b")}, {Op: "W"}, {Op: "SA"}}},
 	}
 }
 
